@@ -49,7 +49,7 @@ def se_exponent(xarr, xoff, carr, coff, nfeat_lo, nfeat_hi, exps_shift=0):
     return tm.mk_sum(j, tm.lift(nfeat_lo), tm.lift(nfeat_hi), rd("exps", j - exps_shift) * d * d)
 
 
-def se_value_spec(fname, i, n, nc, nf):
+def se_value_spec(fname, i, n, nc, nf, swap_input_spins=False):
     """Contract of the C kernels (value clause): the amount added to out[i], as a term over rd:xin / rd:xctrl / rd:actrl / rd:exps.
     Written from the documentation of the squared-exponential kernel sum f(x) = sum_t alpha_t k(x, c_t); proved against the C summary
     by unit_se_kernel, and used as the callee contract by the Python-side proof of C11 (contracts/c11.py)."""
@@ -65,10 +65,11 @@ def se_value_spec(fname, i, n, nc, nf):
     stride = nf if fname == "evaluate_se_kernel_spin" else 2 * nf
     xb = n * nf if fname == "evaluate_se_kernel_spin" else nf
     cb = nc * nf if fname == "evaluate_se_kernel_spin" else nf
-    aa = se_exponent("xin", i * stride, "xctrl", t * stride, 0, nf)
-    ab = se_exponent("xin", i * stride, "xctrl", t * stride + cb, 0, nf)
-    ba = se_exponent("xin", i * stride + xb, "xctrl", t * stride, 0, nf)
-    bb = se_exponent("xin", i * stride + xb, "xctrl", t * stride + cb, 0, nf)
+    xa_, xb_ = (xb, 0) if swap_input_spins else (0, xb)     # swap_input_spins: the same kernel sum for the input with its two spin channels exchanged
+    aa = se_exponent("xin", i * stride + xa_, "xctrl", t * stride, 0, nf)
+    ab = se_exponent("xin", i * stride + xa_, "xctrl", t * stride + cb, 0, nf)
+    ba = se_exponent("xin", i * stride + xb_, "xctrl", t * stride, 0, nf)
+    bb = se_exponent("xin", i * stride + xb_, "xctrl", t * stride + cb, 0, nf)
     return tm.mk_sum(t, tm.ZERO, nc, rd("actrl", t) * (tm.mk_fn("exp", -(aa + bb)) + tm.mk_fn("exp", -(ab + ba))))
 
 
@@ -110,6 +111,67 @@ def instantiate(term, ints, arrays):
     return go(tm.lift(term), dict(ints))
 
 
+def concrete_refute(fname, got, want, i, n, nc, nf, seed=0):
+    """Search a concrete instance (small sizes, inputs at several magnitudes — data-dependent branches of the C code sit at large exponents) at which the
+    two contract terms evaluate differently.  Returns a witness dict or None.  A witness is replayed on the compiled C code by replay_kernel_value."""
+    from fractions import Fraction
+    rng = np.random.RandomState(17 + seed)
+    spin = "spin" in fname
+    for (n_, nc_, nf_) in ((1, 1, 1 if "antisym" not in fname else 3), (2, 2, 2 if "antisym" not in fname else 3), (2, 3, 3)):
+        for scale in (1, 4, 12, 40):
+            for trial in range(3):
+                q = lambda size, lo=0: [Fraction(int(v), 8) for v in rng.randint(lo * 8, scale * 8 + 1, size=size)]
+                arrays = {"xin": q((2 if spin else 1) * n_ * nf_, -scale), "xctrl": q((2 if spin else 1) * nc_ * nf_, -scale), "actrl": q(nc_, -scale), "exps": [x + Fraction(1, 8) for x in q(nf_)]}
+                for i_ in range(n_):
+                    ints = {n: n_, nc: nc_, nf: nf_, i: i_}
+                    try:
+                        a = float(tm.evaluate(instantiate(got, ints, arrays), {}))
+                        b = float(tm.evaluate(instantiate(want, ints, arrays), {}))
+                    except (ValueError, KeyError, OverflowError, ZeroDivisionError):
+                        continue
+                    if abs(a - b) > 1e-9 * max(1.0, abs(a), abs(b)):
+                        return {"n": n_, "nctrl": nc_, "nfeat": nf_, "i": i_, "code_summary_value": a, "contract_value": b,
+                                "arrays": {k: [float(x) for x in v] for k, v in arrays.items()}}
+    return None
+
+
+def replay_kernel_value(fname):
+    """Run the compiled kernel on the witness arrays and compare out[i] with the documented kernel sum computed with numpy."""
+    def replay(wit):
+        import ctypes
+        from pyvc import native
+        if not wit or "arrays" not in wit:
+            return {"reproduced": None, "note": "no concrete instance"}
+        lib = ctypes.CDLL(native.build_libs() + "/libmcider.so")
+        n, nc, nf = wit["n"], wit["nctrl"], wit["nfeat"]
+        A = {k: np.array(v, dtype=np.float64) for k, v in wit["arrays"].items()}
+        out = np.zeros(n)
+        outd = np.zeros(A["xin"].size)
+        getattr(lib, fname)(*[v.ctypes.data_as(ctypes.c_void_p) for v in (out, outd, A["xin"], A["xctrl"], A["actrl"], A["exps"])], ctypes.c_int(n), ctypes.c_int(nc), ctypes.c_int(nf))
+        ex = A["exps"]
+        se = lambda x, c, e=None: float(np.sum((ex if e is None else e) * (x - c) ** 2))
+        want = np.zeros(n)
+        for i in range(n):
+            for t in range(nc):
+                if fname == "evaluate_se_kernel":
+                    k = np.exp(-se(A["xin"][i * nf:(i + 1) * nf], A["xctrl"][t * nf:(t + 1) * nf]))
+                elif fname == "evaluate_se_kernel_antisym":
+                    x, c = A["xin"][i * nf:(i + 1) * nf], A["xctrl"][t * nf:(t + 1) * nf]
+                    e1 = lambda a, b: np.exp(-ex[0] * (x[a] - c[b]) ** 2)
+                    k = np.exp(-se(x[2:], c[2:], ex[1:nf - 1])) * (e1(0, 0) - e1(0, 1) - e1(1, 0) + e1(1, 1))
+                else:
+                    v2 = fname.endswith("_v2")
+                    xa = A["xin"][2 * i * nf:2 * i * nf + nf] if v2 else A["xin"][i * nf:(i + 1) * nf]
+                    xb = A["xin"][2 * i * nf + nf:2 * (i + 1) * nf] if v2 else A["xin"][n * nf + i * nf:n * nf + (i + 1) * nf]
+                    ca = A["xctrl"][2 * t * nf:2 * t * nf + nf] if v2 else A["xctrl"][t * nf:(t + 1) * nf]
+                    cb = A["xctrl"][2 * t * nf + nf:2 * (t + 1) * nf] if v2 else A["xctrl"][nc * nf + t * nf:nc * nf + (t + 1) * nf]
+                    k = np.exp(-(se(xa, ca) + se(xb, cb))) + np.exp(-(se(xa, cb) + se(xb, ca)))
+                want[i] += A["actrl"][t] * k
+        dev = float(np.max(np.abs(out - want)))
+        return {"reproduced": bool(dev > 1e-9 * max(1.0, float(np.max(np.abs(want))))), "out_from_C": [float(v) for v in out], "documented_kernel_sum": [float(v) for v in want]}
+    return replay
+
+
 def unit_se_kernel(fname, value_spec=True):
     """Value summary and D-spec between `out` and `outd` of one C kernel, for all n, nctrl, nfeat (no bound)."""
     def run(ctx):
@@ -133,7 +195,14 @@ def unit_se_kernel(fname, value_spec=True):
         H = hyps + list(ev.guards[:2])
         if value_spec:
             spec = se_value_spec(fname, i, n, nc, nf)
-            ctx.equal("%s.value: out[i] += sum_t alpha_t k(x_i, c_t)" % fname, H, total, spec, fq, replay=replay_kernel(fname))
+            r = ctx.equal("%s.value: out[i] += sum_t alpha_t k(x_i, c_t)" % fname, H, total, spec, fq, replay=replay_kernel(fname))
+            if r["status"] == "undecided":
+                # symbolic comparison inconclusive (e.g. a data-dependent branch in the C code): look for a concrete instance that separates the two
+                w = concrete_refute(fname, total, spec, i, n, nc, nf, ctx.seed)
+                if w is not None:
+                    rp = replay_kernel_value(fname)(w)
+                    if rp.get("reproduced"):
+                        r.update({"status": "refuted", "backend": "concrete-instance", "detail": "a concrete input separates the C summary from the documented kernel sum", "witness": w, "replay": rp})
             ctx.canary("%s.value canary" % fname, H, total, 2 * spec)
         # D-spec: every outd element receives d(out contribution)/d(xin element at the same position)
         douts = total_for(s, "outd", hyps)
@@ -169,6 +238,38 @@ def unit_se_kernel(fname, value_spec=True):
         # cross-point independence: out[i] reads xin only in row i (so d out[i]/d xin[other rows] = 0)
         rows = [e for e in s.events if e.kind == "r" and e.arr.name == "xin"]
         ctx.holds("%s.reads-of-xin-are-in-the-row-of-the-iteration" % fname, len(rows) > 0, "", fq)
+        # the summary above is the sequential meaning of the loop nest: the OpenMP worksharing construct (including collapse clauses) must not let two
+        # iterations that run concurrently touch the same element — the race-freedom obligations of C10 for this function
+        from contracts import c10
+        try:
+            s2, args2 = c10.summarise(MU, fname)
+        except c10.CUnsupported as e:
+            ctx.undecided("%s.race-freedom summarised" % fname, str(e)[:160], fq)
+            return
+        c10.check_summary(ctx, MU, fname, fname, s2, args2, fq)
+    return run
+
+
+def unit_spin_kernel_symmetry(fname):
+    """Lemma over the value contract of the C spin kernels (the contract itself is proved against the C source by unit_se_kernel): the kernel sum is
+    invariant under exchanging the two spin channels of the input point — the spin-symmetric evaluator contract that the POL wrapper proofs assume."""
+    def run(ctx):
+        fq = ["lib/" + MU + ":" + fname]
+        n, nc, nf = I("n"), I("nctrl"), I("nfeat")
+        i = I("i")
+        H = [tm.mk_lt(tm.ZERO, n), tm.mk_lt(tm.ZERO, nc), tm.mk_lt(tm.ZERO, nf), tm.mk_le(tm.ZERO, i), tm.mk_lt(i, n)]
+        a = se_value_spec(fname, i, n, nc, nf)
+        b = se_value_spec(fname, i, n, nc, nf, swap_input_spins=True)
+        # the bound variable of the two sums is renamed to a common one
+        (ta, ba_), (tb, bb_) = (a.args[0], a.args[3]), (b.args[0], b.args[3])
+        t = I("t")
+        H2 = H + [tm.mk_le(tm.ZERO, t), tm.mk_lt(t, nc)]
+        ctx.equal("%s: summand of the kernel sum is unchanged when the spin channels of the input point are exchanged" % fname, H2,
+                  tm.substitute(ba_, {ta: t}), tm.substitute(bb_, {tb: t}), fq)
+        ctx.canary("%s exchange canary (same-spin pairing only)" % fname, H2, tm.substitute(ba_, {ta: t}),
+                   2 * rd("actrl", t) * tm.mk_fn("exp", -(se_exponent("xin", i * (nf if fname == "evaluate_se_kernel_spin" else 2 * nf), "xctrl", t * (nf if fname == "evaluate_se_kernel_spin" else 2 * nf), 0, nf)
+                                                          + se_exponent("xin", i * (nf if fname == "evaluate_se_kernel_spin" else 2 * nf) + (n * nf if fname == "evaluate_se_kernel_spin" else nf), "xctrl",
+                                                                        t * (nf if fname == "evaluate_se_kernel_spin" else 2 * nf) + (nc * nf if fname == "evaluate_se_kernel_spin" else nf), 0, nf))))
     return run
 
 
